@@ -202,6 +202,11 @@ def run(ctx):
                             a1 = db.Convert(qt, u, v, x)
                             a2 = db.Convert(qt, [(u, 1)], [(v, 1)], x)
                             a3 = db.Convert(qt, ((u, 1),), ((v, 1),), x)
+                            # ... also when only one of the two units is given as pairs, and when a pair is a list
+                            for mname, am in (("pairs -> symbol", db.Convert(qt, [(u, 1)], v, x)), ("symbol -> pairs", db.Convert(qt, u, [(v, 1)], x)), ("list pairs", db.Convert(qt, [[u, 1]], [[v, 1]], x)), ("tuple -> symbol", db.Convert(qt, ((u, 1),), v, x))):
+                                if abs(am - a1) > conv.tol_in(aff[v], conv.base_err(aff[u], x, aff[v]), a1, 16.0):
+                                    ctx.violation("%s:%s:%s->%s:exponent-1-form-differs" % (kind, qt, u, v), {"string_form": repr(a1), "form": mname, "that_form": repr(am), "x": x, "db": kind}, replay={"kind": kind, "qt": qt, "u": u, "v": v, "x": x})
+                                    break
                             # the same amount inside a list / a tuple is the same amount
                             al, at = db.Convert(qt, u, v, [x, 0.0, x]), db.Convert(qt, u, v, (x,))
                             if not (isinstance(al, list) and isinstance(at, tuple) and repr(al[0]) == repr(a1) == repr(al[2]) == repr(at[0]) and repr(al[1]) == repr(db.Convert(qt, u, v, 0.0))):
